@@ -389,7 +389,7 @@ def _plan(tier):
 
 def run(rep: Report):
     tier = rep.tier
-    opts = {"prove_timeout_ms": 10000 if tier == "quick" else 30000, "fork_timeout_ms": 3000, "seed": rep.seed, "scenario_wall_s": 200 if tier == "quick" else 600}
+    opts = {"prove_timeout_ms": 10000 if tier == "quick" else 30000, "fork_timeout_ms": 3000, "seed": rep.seed, "scenario_wall_s": 900 if tier == "quick" else 600}
     run_plan(rep, _plan(tier), SCENARIOS, opts)
     rep.bounds = {"atoms": "1-2", "symbolic force coordinates": "one at a time (the other coordinates carry zero force; non-zero concrete forces on other coordinates mix float-evaluated and uninterpreted exp and are left out)", "rejection loop": f"unwound {UNWIND}x (longer paths cut; the per-iteration obligations are inductive in the iteration count)", "delta": "(0,10] scalar or per-coordinate", "T": "[1e-3,1e5] K"}
     rep.assumptions = ["exp uninterpreted with true axioms (monotone, positive, range facts)", "floats as exact reals; zeta == 0 excluded (measure zero, density continuous there)", "masses concrete (1, 16); scaling power concrete"]
